@@ -29,16 +29,21 @@ def firstComp : BKey → Str
   | .primary _ => blockHeightKey
   | .event k _ _ _ => k
 
+/-- one attribute of `indexEvents`: `none` = the reserved-key error -/
+def indexAttr (e : Index.Event) (typ : Str) (h : Nat) (d : DB) (a : Index.Attr) : Option DB :=
+  if a.key.isEmpty then some d
+  else
+    let ck := e.type ++ dot :: a.key
+    if ck == blockHeightKey then none
+    else if a.index then some (dbSet d (.event ck a.value h typ) h) else some d
+
+/-- one event of `indexEvents` (events with an empty type are skipped) -/
+def indexEvent (typ : Str) (h : Nat) (d : DB) (e : Index.Event) : Option DB :=
+  if e.type.isEmpty then some d else e.attrs.foldlM (indexAttr e typ h) d
+
 /-- `indexEvents`: `none` = the reserved-key error (the batch is then never written) -/
 def indexEvents (db : DB) (events : List Index.Event) (typ : Str) (h : Nat) : Option DB :=
-  events.foldlM (fun d e =>
-    if e.type.isEmpty then some d
-    else e.attrs.foldlM (fun d a =>
-      if a.key.isEmpty then some d
-      else
-        let ck := e.type ++ dot :: a.key
-        if ck == blockHeightKey then none
-        else if a.index then some (dbSet d (.event ck a.value h typ) h) else some d) d) db
+  events.foldlM (indexEvent typ h) db
 
 def beginBlock : Str := "begin_block".toUTF8.toList
 def endBlock : Str := "end_block".toUTF8.toList
@@ -102,6 +107,13 @@ def scanStep (st : Except Res (Option (List Nat))) (rows : Scan) : Except Res (O
     | .err => .error .err
     | .rows rs => .ok (applyScan s (rs.map (·.2)))
 
+/-- `sort.Slice(results, func(i, j) bool { return results[i] < results[j] })` -/
+def insertNat (x : Nat) : List Nat → List Nat
+  | [] => [x]
+  | y :: ys => if x ≤ y then x :: y :: ys else y :: insertNat x ys
+
+def sortNat (l : List Nat) : List Nat := l.foldr insertNat []
+
 /-- `Search` -/
 def search (db : DB) (q : Query) : Res :=
   if !conditionsOK q then .err else
@@ -112,6 +124,6 @@ def search (db : DB) (q : Query) : Res :=
     match (q.filter (fun c => !isRangeOp c.op)).foldl (fun st c => scanStep st (condRows db c)) st1 with
     | .error e => e
     | .ok none => .heights []
-    | .ok (some hs) => .heights (hs.filter (has db))
+    | .ok (some hs) => .heights (sortNat (hs.filter (has db)))
 
 end Tmv.BlockIndex
